@@ -7,6 +7,10 @@
 // hash-then-Process step, trieSync.processNodeData), duplicates, corrupted
 // bytes, unrequested nodes, commits (trieSync.commit into a write-logging
 // CrashDB) and interruptions (a new Sync on whatever reached the database).
+//
+// Source families (sources with a second, newer root) add op pivot: the new
+// Sync is started for the NEWER root on the database as it stands, as the
+// downloader does when the pivot block moves during fast sync.
 package c19
 
 import (
@@ -32,9 +36,10 @@ type Sys struct {
 	r   *mc.Run
 	src *source
 
-	db    *mc.CrashDB
-	sched *trie.Sync
-	ts    *downloader.VerifTrieSync
+	db     *mc.CrashDB
+	sched  *trie.Sync
+	ts     *downloader.VerifTrieSync
+	target int // index of the root being synced (0 until the pivot moved)
 
 	seen        map[common.Hash]int  // every hash that was a pending request since the last (re)start -> its queue priority (depth at first scheduling)
 	popped      map[common.Hash]bool // handed out by Missing since the last (re)start
@@ -49,11 +54,7 @@ type Sys struct {
 func newSys(r *mc.Run, src *source) *Sys { return &Sys{r: r, src: src} }
 
 func (s *Sys) start() {
-	if s.src.isState {
-		s.sched = state.NewStateSync(s.src.root, s.db)
-	} else {
-		s.sched = trie.NewSync(s.src.root, s.db, nil)
-	}
+	s.sched = s.src.newSync(s.target, s.db)
 	// kind is only used for logging and for the KindState statistics, which need a Downloader
 	s.ts = downloader.VerifNewTrieSync(types.KindValidator, s.db, s.sched)
 	s.seen, s.popped, s.outstanding = map[common.Hash]int{}, map[common.Hash]bool{}, map[common.Hash]bool{}
@@ -62,8 +63,15 @@ func (s *Sys) start() {
 
 func (s *Sys) Reset() {
 	s.db = mc.NewCrashDB()
-	s.checkedLog, s.dead, s.viols = 0, false, nil
+	s.checkedLog, s.dead, s.viols, s.target = 0, false, nil, 0
 	s.start()
+}
+
+func (src *source) newSync(t int, db *mc.CrashDB) *trie.Sync {
+	if src.isState {
+		return state.NewStateSync(src.roots[t], db)
+	}
+	return trie.NewSync(src.roots[t], db, nil)
 }
 
 type view struct {
@@ -126,6 +134,9 @@ func (s *Sys) refresh() *view {
 		}
 	}
 	var b strings.Builder
+	if s.target > 0 {
+		fmt.Fprintf(&b, "T%d ", s.target+1)
+	}
 	b.WriteString("R")
 	for _, q := range v.reqs {
 		// parents in stored order: it decides the order in which they are
@@ -239,9 +250,11 @@ func (s *Sys) Enabled() []string {
 		// the production loop has left `for Pending() > 0`; only its final forced
 		// commit - or a crash before it - can follow
 		if len(v.memb) > 0 {
-			return []string{"commit", "interrupt"}
+			return append([]string{"commit", "interrupt"}, s.pivotOp()...)
 		}
-		return nil
+		// complete and flushed: only a move to a newer root can follow (a sync of
+		// the newer state on top of the complete older one)
+		return s.pivotOp()
 	}
 	// Missing(k) for every k that ends at a priority-group boundary of the fetch
 	// queue (so that the returned SET does not depend on heap tie-breaking)
@@ -262,6 +275,7 @@ func (s *Sys) Enabled() []string {
 		ops = append(ops, "commit")
 	}
 	ops = append(ops, "interrupt")
+	ops = append(ops, s.pivotOp()...)
 	// faults; every one of them must leave the state unchanged
 	for _, h := range s.src.order {
 		q := v.req[h]
@@ -277,6 +291,13 @@ func (s *Sys) Enabled() []string {
 	}
 	ops = append(ops, "foreign")
 	return ops
+}
+
+func (s *Sys) pivotOp() []string {
+	if s.target+1 < len(s.src.roots) {
+		return []string{"pivot"}
+	}
+	return nil
 }
 
 func (s *Sys) Apply(op string) string {
@@ -393,6 +414,9 @@ func (s *Sys) apply(op string) string {
 		return cls
 
 	case "commit":
+		if some, _ := s.sharedBlobWaiting(s.view()); some {
+			s.count("commits_while_shared_blob_absent_and_a_referencing_leaf_delivered", 1)
+		}
 		err := s.ts.Commit(true)
 		v := s.refresh()
 		s.count("commits", 1)
@@ -409,13 +433,39 @@ func (s *Sys) apply(op string) string {
 		if len(v.memb) > 0 {
 			s.count("interrupts_losing_uncommitted_nodes", 1)
 		}
-		if len(v.inDB) > 0 && len(v.inDB) < len(src.nodes) {
+		if len(v.inDB) > 0 && s.lacking(v, s.target) > 0 {
 			s.count("interrupts_on_partial_database", 1)
+		}
+		if some, _ := s.sharedBlobWaiting(v); some {
+			s.count("interrupts_while_shared_blob_absent_and_a_referencing_leaf_delivered", 1)
 		}
 		s.count("interrupts", 1)
 		s.start()
 		s.checkCompletion(s.view())
 		return fmt.Sprintf("pending=%d", s.sched.Pending())
+
+	case "pivot":
+		// the pivot block moved: the running sync is dropped (what it had not
+		// flushed is lost; "commit ; pivot" is the graceful cancel) and a new one
+		// is started for the newer root on the database as it stands
+		v := s.view()
+		s.count("pivots", 1)
+		if len(v.memb) > 0 {
+			s.count("pivots_losing_uncommitted_nodes", 1)
+		}
+		switch lack := s.lacking(v, s.target); {
+		case len(v.inDB) == 0:
+			s.count("pivots_on_empty_database", 1)
+		case lack > 0:
+			s.count("pivots_on_partial_database", 1)
+		default:
+			s.count("pivots_on_complete_older_state", 1)
+		}
+		s.countSharedBlobPivot(v)
+		s.target++
+		s.start()
+		s.checkCompletion(s.view())
+		return fmt.Sprintf("root%d pending=%d", s.target+1, s.sched.Pending())
 	}
 	panic("harness: unknown op " + op)
 }
@@ -427,6 +477,13 @@ func (s *Sys) checkStored(v *view) {
 		s.viols = append(s.viols, mc.Violation{
 			Sig:    fmt.Sprintf("destination holds a key that is no source hash (source %s)", s.src.name),
 			Detail: "keys: " + strings.Join(v.alien, ",")})
+	}
+	for _, h := range s.sorted(v.inDB) {
+		if !s.src.allowed(h, s.target) {
+			s.viols = append(s.viols, mc.Violation{
+				Sig:    fmt.Sprintf("destination holds a node that only a root never synced so far references (source %s)", s.src.name),
+				Detail: fmt.Sprintf("key %s while root %d is synced", s.src.n(h), s.target+1)})
+		}
 	}
 	for h := range v.inDB {
 		val, _ := s.db.Get(h[:])
@@ -445,10 +502,81 @@ func (s *Sys) checkCompletion(v *view) {
 		return
 	}
 	s.count("completions_checked", 1)
-	if why := s.src.sameAsSource(s.db.Snapshot()); why != "" {
+	if s.target > 0 {
+		s.count("completions_checked_after_pivot", 1)
+	}
+	if why := s.src.sameAsSource(s.db.Snapshot(), s.target); why != "" {
 		s.viols = append(s.viols, mc.Violation{
-			Sig:    fmt.Sprintf("sync reports completion but destination differs from source: %s (source %s)", whyClass(why), s.src.name),
+			Sig:    fmt.Sprintf("sync reports completion but destination differs from source: %s (source %s)", whyClass(why), s.src.label(s.target)),
 			Detail: why + "\n" + s.src.describe()})
+	}
+}
+
+// lacking: how many nodes of roots[t] the destination does not hold.
+func (s *Sys) lacking(v *view, t int) int {
+	n := 0
+	for h := range s.src.reach[t] {
+		if !v.inDB[h] {
+			n++
+		}
+	}
+	return n
+}
+
+// sharedBlobWaiting: is there a blob that several account leaves of the root
+// being synced reference, still absent from the destination, while one / every
+// one of those leaves has been delivered (waiting, finished or stored)?
+func (s *Sys) sharedBlobWaiting(v *view) (some, every bool) {
+	src := s.src
+	for _, h := range src.order {
+		if !src.shared[h] || !src.reach[s.target][h] || v.inDB[h] {
+			continue
+		}
+		got, all := 0, 0
+		for _, p := range src.parentsOf(s.target, h) {
+			all++
+			if q := v.req[p]; (q != nil && q.HasData) || v.inDB[p] || v.inMemb[p] {
+				got++
+			}
+		}
+		some = some || got > 0
+		every = every || got == all
+	}
+	return
+}
+
+// countSharedBlobPivot: vacuity guards of the shared-blob dimension.  The pivot
+// moves while a shared blob is still absent and one / every referencing leaf
+// has been delivered.
+func (s *Sys) countSharedBlobPivot(v *view) {
+	src := s.src
+	some, every := s.sharedBlobWaiting(v)
+	if some {
+		s.count("pivots_while_shared_blob_absent_and_a_referencing_leaf_delivered", 1)
+	}
+	if every {
+		s.count("pivots_while_shared_blob_absent_and_every_referencing_leaf_delivered", 1)
+	}
+	for _, h := range src.order {
+		if !src.shared[h] || !src.reach[s.target][h] || v.inDB[h] || !src.reach[s.target+1][h] {
+			continue
+		}
+		// the exact shape of the false completion: every referencing leaf has been
+		// delivered, the blob has not, and the newer root references the blob only
+		// through leaves that did not change (which a restarted sync never revisits
+		// if they reached the database)
+		changed, waiting := false, true
+		for _, p := range src.parentsOf(s.target, h) {
+			if !src.reach[s.target+1][p] {
+				changed = true
+			}
+			if q := v.req[p]; q == nil || !q.HasData {
+				waiting = false
+			}
+		}
+		if changed && waiting {
+			s.count("pivots_while_every_leaf_waits_for_a_shared_blob_that_only_unchanged_leaves_reference_in_the_newer_root", 1)
+		}
 	}
 }
 
@@ -459,14 +587,16 @@ func whyClass(why string) string {
 	return why
 }
 
-// sameAsSource compares a database with the source: exact key/value set and the
-// observation through the real readers.
-func (src *source) sameAsSource(db *mc.CrashDB) string {
+// sameAsSource compares a database with roots[t] of the source: exact key/value
+// set (every trie node, code and delegation blob of roots[t]; beyond those only
+// what an older root of the family left behind) and the observation through the
+// real readers.
+func (src *source) sameAsSource(db *mc.CrashDB, t int) string {
 	var missing, extra []string
 	have := map[common.Hash]bool{}
 	for _, k := range db.Keys() {
 		h := common.BytesToHash([]byte(k))
-		if _, ok := src.nodes[h]; !ok || len(k) != 32 {
+		if _, ok := src.nodes[h]; !ok || len(k) != 32 || !src.allowed(h, t) {
 			extra = append(extra, fmt.Sprintf("%x", k))
 			continue
 		}
@@ -476,7 +606,7 @@ func (src *source) sameAsSource(db *mc.CrashDB) string {
 		}
 	}
 	for _, h := range src.order {
-		if !have[h] {
+		if src.reach[t][h] && !have[h] {
 			missing = append(missing, src.n(h)+"("+src.kind[h]+")")
 		}
 	}
@@ -487,12 +617,12 @@ func (src *source) sameAsSource(db *mc.CrashDB) string {
 		sort.Strings(extra)
 		return "extra keys: " + strings.Join(extra, ",")
 	}
-	got, err := src.observe(db)
+	got, err := src.observe(db, t)
 	if err != nil {
 		return "real reader fails: " + err.Error()
 	}
-	if got != src.content {
-		return "real reader sees different content: have " + got + " want " + src.content
+	if got != src.contents[t] {
+		return "real reader sees different content: have " + got + " want " + src.contents[t]
 	}
 	return ""
 }
@@ -500,11 +630,12 @@ func (src *source) sameAsSource(db *mc.CrashDB) string {
 // ---- interruption oracle -------------------------------------------------------
 
 type prefixVerdict struct {
-	closure string // "" or the first present node with an absent descendant
-	resume  string // "" or why the resumed honest sync is wrong
+	closure  string // "" or the first present node with an absent descendant
+	resume   string // "" or why the resumed honest sync is wrong
+	resumeOn int    // the root the failing resumed sync was started for
 }
 
-var prefixMemo sync.Map // source name + present set -> prefixVerdict
+var prefixMemo sync.Map // source name + root being synced + present set -> prefixVerdict
 
 // checkPrefixes evaluates, for every write prefix not seen before - every batch
 // boundary AND every position inside a batch - the destination as a crash
@@ -514,7 +645,7 @@ func (s *Sys) checkPrefixes() {
 	for i := s.checkedLog; i < len(log); i++ {
 		n := len(log[i].Writes)
 		// verdict at the end of the record (the only image an atomic batch can leave)
-		end := s.src.prefixVerdict(s.r, s.db.At(i+1))
+		end := s.src.prefixVerdict(s.r, s.db.At(i+1), s.target)
 		s.reportPrefix(end, i, n, n, "at a commit boundary")
 		// images inside the batch: reported only for what the boundary image does
 		// not already show, i.e. defects of the write ORDER inside a batch
@@ -525,7 +656,7 @@ func (s *Sys) checkPrefixes() {
 			} else {
 				base.Put(w.Key, w.Val)
 			}
-			pv := s.src.prefixVerdict(s.r, base)
+			pv := s.src.prefixVerdict(s.r, base, s.target)
 			if end.closure != "" {
 				pv.closure = ""
 			}
@@ -546,12 +677,17 @@ func (s *Sys) reportPrefix(pv prefixVerdict, rec, applied, of int, where string)
 	}
 	if pv.resume != "" {
 		s.viols = append(s.viols, mc.Violation{
-			Sig:    fmt.Sprintf("partial trie presented complete after interrupt at write k, %s: %s (source %s)", where, whyClass(pv.resume), s.src.name),
-			Detail: fmt.Sprintf("k = record %d, %d of %d writes applied; a new Sync on that database, answered honestly and completely, ends with: %s\n%s", rec, applied, of, pv.resume, s.src.describe())})
+			Sig:    fmt.Sprintf("partial trie presented complete after interrupt at write k, %s: %s (source %s)", where, whyClass(pv.resume), s.src.label(pv.resumeOn)),
+			Detail: fmt.Sprintf("k = record %d, %d of %d writes applied (while root %d was synced); a new Sync for root %d on that database, answered honestly and completely, ends with: %s\n%s", rec, applied, of, s.target+1, pv.resumeOn+1, pv.resume, s.src.describe())})
 	}
 }
 
-func (src *source) prefixVerdict(r *mc.Run, db *mc.CrashDB) prefixVerdict {
+// prefixVerdict judges one crash image taken while roots[target] was synced:
+// closure over the reference graph (trie children, storage roots, code and
+// delegation blobs of account leaves alike), and an honest resumed sync for the
+// same root AND for every newer root of the family (the node comes back up and
+// the pivot has moved meanwhile).
+func (src *source) prefixVerdict(r *mc.Run, db *mc.CrashDB, target int) prefixVerdict {
 	present := map[common.Hash]bool{}
 	var ks []string
 	for _, k := range db.Keys() {
@@ -559,16 +695,21 @@ func (src *source) prefixVerdict(r *mc.Run, db *mc.CrashDB) prefixVerdict {
 		ks = append(ks, k)
 	}
 	sort.Strings(ks)
-	memo := src.name + "#" + strings.Join(ks, "")
+	memo := fmt.Sprintf("%s#%d#%s", src.name, target, strings.Join(ks, ""))
 	if v, ok := prefixMemo.Load(memo); ok {
 		return v.(prefixVerdict)
 	}
 	var pv prefixVerdict
+	var edges, blobEdges int64
 	for _, h := range src.order {
 		if !present[h] {
 			continue
 		}
 		for _, c := range src.kids[h] {
+			edges++
+			if strings.Contains(src.kind[c], "raw") {
+				blobEdges++
+			}
 			if !present[c] {
 				pv.closure = fmt.Sprintf("%s (%s) is present, its descendant %s (%s) is not", src.n(h), src.kind[h], src.n(c), src.kind[c])
 				break
@@ -578,11 +719,28 @@ func (src *source) prefixVerdict(r *mc.Run, db *mc.CrashDB) prefixVerdict {
 			break
 		}
 	}
-	pv.resume = src.resumeHonestly(db.Snapshot())
+	for t := target; t < len(src.roots); t++ {
+		if why := src.resumeHonestly(db.Snapshot(), t); why != "" && pv.resume == "" {
+			pv.resume, pv.resumeOn = why, t
+		}
+	}
 	if _, loaded := prefixMemo.LoadOrStore(memo, pv); !loaded {
 		r.Count("distinct_crash_images_resumed", 1)
-		if len(present) > 0 && len(present) < len(src.nodes) {
+		if pv.closure == "" {
+			r.Count("closure_edges_checked_present_node_to_descendant", edges)
+			r.Count("closure_edges_checked_account_leaf_to_code_or_delegations_blob", blobEdges)
+		}
+		lacking := 0
+		for h := range src.reach[target] {
+			if !present[h] {
+				lacking++
+			}
+		}
+		if len(present) > 0 && lacking > 0 {
 			r.Count("distinct_crash_images_partial", 1)
+		}
+		if n := len(src.roots) - 1 - target; n > 0 {
+			r.Count("distinct_crash_images_resumed_on_newer_root", int64(n))
 		}
 	}
 	return pv
@@ -590,20 +748,15 @@ func (src *source) prefixVerdict(r *mc.Run, db *mc.CrashDB) prefixVerdict {
 
 // resumeHonestly starts a NEW sync on the given database and answers every
 // request completely and correctly; it must end complete and equal to the source.
-func (src *source) resumeHonestly(db *mc.CrashDB) (why string) {
-	if msg := mc.Catch(func() { why = src.resume0(db) }); msg != "" {
+func (src *source) resumeHonestly(db *mc.CrashDB, t int) (why string) {
+	if msg := mc.Catch(func() { why = src.resume0(db, t) }); msg != "" {
 		return "panic: " + msg
 	}
 	return
 }
 
-func (src *source) resume0(db *mc.CrashDB) string {
-	var sched *trie.Sync
-	if src.isState {
-		sched = state.NewStateSync(src.root, db)
-	} else {
-		sched = trie.NewSync(src.root, db, nil)
-	}
+func (src *source) resume0(db *mc.CrashDB, t int) string {
+	sched := src.newSync(t, db)
 	ts := downloader.VerifNewTrieSync(types.KindValidator, db, sched)
 	for round := 0; sched.Pending() > 0; round++ {
 		if round > 4*len(src.nodes)+4 {
@@ -625,7 +778,7 @@ func (src *source) resume0(db *mc.CrashDB) string {
 	if err := ts.Commit(true); err != nil {
 		return "commit failed: " + err.Error()
 	}
-	return src.sameAsSource(db)
+	return src.sameAsSource(db, t)
 }
 
 var transSeen [64]struct {
@@ -676,13 +829,14 @@ func sources(all bool) []*source {
 
 func Run(r *mc.Run) {
 	r.Level = "model_checking"
-	r.Rule = "BFS to a fixpoint over every schedule of the real trie.Sync/state.NewStateSync on each source: Missing(k) for every k ending at a priority-group boundary of the fetch queue, delivery of any wanted node (handed out or not) through trieSync.processNodeData, duplicate/unrequested/bit-flipped/truncated/foreign deliveries, trieSync.commit into a write-logging database, interrupt (new Sync on the database as it is); states de-duplicated on the full scheduler state (requests with dependency counts and parents, membatch order, fetch-queue set, handed-out set, database key set); distinct = distinct such states; a case is non-trivial by construction (every state differs in scheduler or database content)"
+	r.Rule = "BFS to a fixpoint over every schedule of the real trie.Sync/state.NewStateSync on each source: Missing(k) for every k ending at a priority-group boundary of the fetch queue, delivery of any wanted node (handed out or not) through trieSync.processNodeData, duplicate/unrequested/bit-flipped/truncated/foreign deliveries, trieSync.commit into a write-logging database, interrupt (new Sync on the database as it is), and on source families (two roots: the state a block later, one sharing account changed) pivot (new Sync for the NEWER root on the database as it is, from every state incl. the completed one; completion is then compared with the newer root: every trie node, code and delegations blob); every distinct write prefix (batch boundaries and positions inside a batch) is checked for closure over trie children, storage roots, code and delegations blobs, and resumed honestly for the root being synced and for every newer root of the family; states de-duplicated on the full scheduler state (root being synced, requests with dependency counts and parents, membatch order, fetch-queue set, handed-out set, database key set); distinct = distinct such states; a case is non-trivial by construction (every state differs in scheduler or database content)"
 	if r.Quick() {
 		r.SetBudget(150e9)
 	} else {
 		r.SetBudget(25 * 60e9)
 	}
 	r.Assume("deliveries reach trie.Sync only through the downloader's processNodeData (hash computed from the bytes), as in production; Sync.Process called with a caller-chosen hash is outside the property")
+	r.Assume("pivot moves: forward only, at most once per explored execution (families have two roots), the older root's nodes stay in the database")
 	r.Assume("crash model: LevelDB - a batch is atomic, the write log is prefix-closed; positions inside a batch are checked too and reported under a separate signature")
 	var desc []string
 	total := 0
